@@ -2,7 +2,6 @@ package main
 
 import (
 	"fmt"
-	"go/token"
 	"go/types"
 	"sort"
 	"strings"
@@ -10,79 +9,9 @@ import (
 	"golang.org/x/tools/go/ssa"
 )
 
-// enumPaths enumerates the acyclic block paths that start at `from` and end
-// at the first block for which stop returns true (the start block itself may
-// be a stop target only as the final element: paths returning to it are
-// reported). Bounded by maxPaths.
-func enumPaths(from *ssa.BasicBlock, stop func(b *ssa.BasicBlock) bool, maxPaths int) ([][]*ssa.BasicBlock, bool) {
-	var out [][]*ssa.BasicBlock
-	ok := true
-	var dfs func(path []*ssa.BasicBlock, seen map[int]bool)
-	dfs = func(path []*ssa.BasicBlock, seen map[int]bool) {
-		if len(out) >= maxPaths {
-			ok = false
-			return
-		}
-		cur := path[len(path)-1]
-		if len(cur.Succs) == 0 {
-			out = append(out, append([]*ssa.BasicBlock(nil), path...))
-			return
-		}
-		for _, s := range cur.Succs {
-			if s == from || stop(s) {
-				out = append(out, append(append([]*ssa.BasicBlock(nil), path...), s))
-				continue
-			}
-			if seen[s.Index] {
-				continue // inner cycle: not a simple path
-			}
-			seen[s.Index] = true
-			dfs(append(path, s), seen)
-			delete(seen, s.Index)
-		}
-	}
-	dfs([]*ssa.BasicBlock{from}, map[int]bool{from.Index: true})
-	return out, ok
-}
-
-// callSucceededOn reports whether, on the given path, the call at position
-// (block index i in path) is followed by its error-is-nil edge. The accepted
-// idiom is: the call's error result e is tested by the block's terminator
-// `if e != nil` (or `e == nil`).
-func callSucceededOn(path []*ssa.BasicBlock, i int, call *ssa.Call) (bool, bool) {
-	b := path[i]
-	ifi, ok := b.Instrs[len(b.Instrs)-1].(*ssa.If)
-	if !ok || i+1 >= len(path) {
-		return false, false
-	}
-	bo, ok := ifi.Cond.(*ssa.BinOp)
-	if !ok || (bo.Op != token.NEQ && bo.Op != token.EQL) {
-		return false, false
-	}
-	isErrOf := func(v ssa.Value) bool {
-		switch x := v.(type) {
-		case *ssa.Extract:
-			return x.Tuple == ssa.Value(call)
-		case *ssa.Call:
-			return x == call
-		}
-		return false
-	}
-	isNil := func(v ssa.Value) bool { c, ok := v.(*ssa.Const); return ok && c.Value == nil }
-	if !((isErrOf(bo.X) && isNil(bo.Y)) || (isErrOf(bo.Y) && isNil(bo.X))) {
-		return false, false
-	}
-	next := path[i+1]
-	errNonNilSucc := b.Succs[0]
-	if bo.Op == token.EQL {
-		errNonNilSucc = b.Succs[1]
-	}
-	return next != errNonNilSucc, true
-}
-
 func runC16(c *Checker) {
 	c.Level = "other"
-	c.explain = "Decides two structural parts. (1) IsSynced: interpreted for each of the 8192 PID values with the rest of the peeked header symbolic; it must answer true exactly under no-peek-error ∧ b0 == 0x47 ∧ adaptation_field_control ≠ 00 ∧ PID ∉ [4,15]. (2) Sync's bookkeeping: on every acyclic path of the scan loop from its header back to it, the increment of the offset variable must equal the number of successful ReadByte calls minus successful UnreadByte calls (≥ 1, so the loop makes progress); on the path to the success return the net consumption since the header must be 0 and the returned offset the loop variable itself, so the reader stands on the sync byte and the offset counts exactly the bytes consumed before it; io.EOF from any read or peek maps to the not-found error, other errors are returned unchanged. Does not decide: 'first such position' for concrete streams (consequence of byte-by-byte monotone scanning, argued) and bufio's behaviour."
+	c.explain = "Decides two structural parts. (1) IsSynced: interpreted for each of the 8192 PID values with the rest of the peeked header symbolic; it must answer true exactly under no-peek-error ∧ b0 == 0x47 ∧ adaptation_field_control ≠ 00 ∧ PID ∉ [4,15]. (2) Sync's step: one abstract iteration of the scan loop from a symbolic offset with the reader's methods and IsSynced uninterpreted, decided by cases on their results: a byte other than 0x47 and a 0x47 that IsSynced refuses continue the search with the offset grown by exactly the bytes consumed (successful ReadByte minus successful UnreadByte among the calls executed in that case, at least one); a 0x47 that IsSynced accepts returns the offset with nothing consumed since the iteration began (the reader stands on the sync byte, and IsSynced looked at this position); the end of the stream, also inside the header IsSynced peeks at, gives the not-found error; the offset starts at 0. Does not decide: 'first such position' for concrete streams (consequence of byte-by-byte monotone scanning, argued) and bufio's behaviour."
 	c.trust("go/ssa + go/types (x/tools v0.29.0)", "E1 transfer functions", "Peek(n) consumes nothing; ReadByte consumes one byte iff it returns a nil error; UnreadByte gives one back iff it returns nil (bufio contract)")
 	c.checkIsSynced()
 	c.checkSyncLoop()
@@ -176,190 +105,178 @@ func (c *Checker) checkIsSynced() {
 
 func (c *Checker) checkSyncLoop() {
 	const anchor = "packet:Sync"
+	const rule = "C16.scan"
 	fn, err := c.P.Func(anchor)
 	if err != nil {
-		c.undecided("C16.scan", anchor, "anchor", err.Error())
+		c.undecided(rule, anchor, "anchor", err.Error())
 		return
 	}
 	c.analysed[fn.String()] = true
 	isSynced, _ := c.P.Func("packet:IsSynced")
-	// loop header = block with a phi that is returned as result 0
-	var H *ssa.BasicBlock
-	var off *ssa.Phi
-	for _, b := range fn.Blocks {
-		for _, ins := range b.Instrs {
-			if phi, ok := ins.(*ssa.Phi); ok {
-				if w, _, ok := intWidth(phi.Type()); ok && w == 64 {
-					for _, p := range b.Preds {
-						if b.Dominates(p) {
-							H, off = b, phi
-						}
-					}
-				}
-			}
-		}
-	}
-	if H == nil {
-		c.undecided("C16.scan", anchor, "scan loop", "no loop with a 64-bit offset variable found")
+	// one abstract iteration of the scan loop from a symbolic offset; the
+	// reader's methods and IsSynced (decided above) are uninterpreted
+	ls, err := AnalyzeLoop(c.P, fn, &AnalyzeOpts{Setup: func(in *Interp) {
+		prev := in.OpaqueFn
+		in.OpaqueFn = func(f *ssa.Function) bool { return f == isSynced || (prev != nil && prev(f)) }
+	}})
+	if err != nil {
+		c.undecided(rule, anchor, "loop step", err.Error())
 		return
 	}
-	paths, complete := enumPaths(H, func(b *ssa.BasicBlock) bool { return false }, 4096)
-	if !complete {
-		c.undecided("C16.scan", anchor, "scan loop", "too many paths")
-		return
-	}
-	// net consumption along a path
-	consumption := func(path []*ssa.BasicBlock) (net int, reads int, desc string, ok bool) {
-		ok = true
-		for i, b := range path[:len(path)-0] {
-			if i == len(path)-1 && b == H {
+	in := ls.Sum.in
+	var offPhi *ssa.Phi
+	for _, p := range ls.Phis {
+		if w, _, ok := intWidth(p.Type()); ok && w == 64 {
+			if offPhi != nil {
+				offPhi = nil
 				break
 			}
-			for _, ins := range b.Instrs {
-				call, isCall := ins.(*ssa.Call)
-				if !isCall {
-					continue
-				}
-				cc := call.Common()
-				switch {
-				case cc.IsInvoke() && (cc.Method.Name() == "ReadByte" || cc.Method.Name() == "UnreadByte"):
-					succ, rec := callSucceededOn(path, i, call)
-					if !rec {
-						if i == len(path)-1 {
-							continue // last block: the call's outcome does not matter for a return path evaluated before it
-						}
-						ok = false
-						desc += " ?" + cc.Method.Name()
-						continue
-					}
-					if succ {
-						if cc.Method.Name() == "ReadByte" {
-							net++
-							reads++
-							desc += " ReadByte"
-						} else {
-							net--
-							desc += " UnreadByte"
-						}
-					} else {
-						desc += " " + cc.Method.Name() + "(err)"
-					}
-				case cc.IsInvoke() && cc.Method.Name() == "Peek":
-					desc += " Peek"
-				case cc.StaticCallee() != nil && cc.StaticCallee() == isSynced:
-					desc += " IsSynced"
-				case cc.IsInvoke():
-					ok = false
-					desc += " ?" + cc.Method.Name()
-				}
-			}
+			offPhi = p
 		}
+	}
+	var reads, unreads, syncs, others []*Event
+	for k := range ls.Sum.Events {
+		e := &ls.Sum.Events[k]
+		if e.Kind != "call" {
+			continue
+		}
+		switch {
+		case strings.HasSuffix(e.Note, ").ReadByte"):
+			reads = append(reads, e)
+		case strings.HasSuffix(e.Note, ").UnreadByte"):
+			unreads = append(unreads, e)
+		case strings.HasSuffix(e.Note, "packet.IsSynced"):
+			syncs = append(syncs, e)
+		default:
+			others = append(others, e)
+		}
+	}
+	if offPhi == nil || len(reads) != 2 || len(unreads) != 1 || len(syncs) != 1 || len(others) != 0 {
+		c.undecided(rule, anchor, "loop step", fmt.Sprintf("the iteration is not of the form ReadByte, UnreadByte, IsSynced, ReadByte with one 64-bit offset (%d ReadByte, %d UnreadByte, %d IsSynced, %d other calls)", len(reads), len(unreads), len(syncs), len(others)))
 		return
 	}
-	delta := func(v ssa.Value) (int64, bool) {
-		v = stripConv(v)
-		if v == ssa.Value(off) {
-			return 0, true
+	off := ls.Pre[offPhi].(*BV)
+	field := func(e *Event, k int) Val {
+		if sv, ok := e.Val.(*StructV); ok && k < len(sv.Fields) {
+			return sv.Fields[k]
 		}
-		if bo, ok := v.(*ssa.BinOp); ok && bo.Op == token.ADD {
-			if bo.X == ssa.Value(off) {
-				if k, ok := bo.Y.(*ssa.Const); ok {
-					return k.Int64(), true
-				}
-			}
-			if bo.Y == ssa.Value(off) {
-				if k, ok := bo.X.(*ssa.Const); ok {
-					return k.Int64(), true
-				}
-			}
+		if k == 0 {
+			return e.Val
 		}
-		return 0, false
+		return nil
 	}
-	nBack, nSucc := 0, 0
-	for _, p := range paths {
-		last := p[len(p)-1]
-		var names []string
-		for _, b := range p {
-			names = append(names, fmt.Sprint(b.Index))
-		}
-		pd := "path " + strings.Join(names, "→")
-		if last == H && len(p) > 1 {
-			nBack++
-			net, _, desc, ok := consumption(p)
-			if !ok {
-				c.undecided("C16.scan", anchor, "back-edge "+callSeq(desc), "unrecognised reader call on "+pd)
+	b1, _ := field(reads[0], 0).(*BV)
+	okV, _ := field(syncs[0], 0).(*BV)
+	if b1 == nil || b1.W != 8 || okV == nil || okV.W != 1 || field(reads[0], 1) == nil || field(reads[1], 1) == nil || field(syncs[0], 1) == nil {
+		c.undecided(rule, anchor, "loop step", "unexpected result shapes of the reader calls")
+		return
+	}
+	e1, e2, e3, e4 := field(reads[0], 1), field(unreads[0], 0), field(syncs[0], 1), field(reads[1], 1)
+	n1, n2, n3, n4 := in.nilBit(e1), in.nilBit(e2), in.nilBit(e3), in.nilBit(e4)
+	isSync := bvEq(b1, constInt(0x47, 8, false))
+	ok := okV.Bits[0]
+	eof := func(e Val) Bit { return in.eqBit(e, SymConst{Name: "io.EOF"}) }
+	// bytes consumed in the iteration under the facts: successful ReadByte
+	// minus successful UnreadByte among the calls that are executed; upTo
+	// stops before that event (position of the reader when it is called)
+	consumed := func(fs *factSet, upTo *Event) (int, string) {
+		net := 0
+		for k := range ls.Sum.Events {
+			e := &ls.Sum.Events[k]
+			if e == upTo {
+				break
+			}
+			if e.Kind != "call" || e == syncs[0] {
 				continue
 			}
-			pred := p[len(p)-2]
-			d, okd := delta(off.Edges[predIndex(H, pred)])
-			if !okd {
-				c.undecided("C16.scan", anchor, "back-edge "+callSeq(desc), "offset update is not offset+const on "+pd)
+			run := fs.bit(e.Cond)
+			if !isConst(run) {
+				return 0, "whether " + e.Note + " is called depends on " + run.String()
+			}
+			if !run.c {
 				continue
 			}
-			c.check("C16.scan", anchor, "iteration ["+callSeq(desc)+"]: Δoffset == bytes consumed", int64(net) == d,
-				fmt.Sprintf("%s consumes %d byte(s) net but adds %d to the offset", pd, net, d))
-			c.check("C16.scan", anchor, "iteration ["+callSeq(desc)+"]: consumes at least one byte (progress)", net >= 1, fmt.Sprintf("%s consumes %d", pd, net))
-			continue
-		}
-		ret, isRet := last.Instrs[len(last.Instrs)-1].(*ssa.Return)
-		if !isRet || len(ret.Results) != 2 {
-			continue
-		}
-		if k, isConst := ret.Results[1].(*ssa.Const); isConst && k.Value == nil {
-			nSucc++
-			net, _, desc, ok := consumption(p)
-			d, okd := delta(ret.Results[0])
-			c.check("C16.scan", anchor, "success return ["+callSeq(desc)+"]: reader left on the sync byte (net consumption 0) and offset == bytes skipped", ok && okd && net == 0 && d == 0,
-				fmt.Sprintf("%s: net consumption %d, returned offset = loop offset %+d", pd, net, d))
-			// the success return is guarded by IsSynced's ok result
-			guarded := false
-			if len(p) >= 2 {
-				prev := p[len(p)-2]
-				if ifi, ok := prev.Instrs[len(prev.Instrs)-1].(*ssa.If); ok && prev.Succs[0] == last {
-					if ex, ok := ifi.Cond.(*ssa.Extract); ok && ex.Index == 0 {
-						if call, ok := ex.Tuple.(*ssa.Call); ok && call.Call.StaticCallee() == isSynced {
-							guarded = true
-						}
-					}
-				}
+			var errV Val
+			d := 1
+			if e == unreads[0] {
+				errV, d = field(e, 0), -1
+			} else {
+				errV = field(e, 1)
 			}
-			c.check("C16.scan", anchor, "success return is taken exactly on IsSynced == true", guarded, pd)
-		} else {
-			// error return: propagated error or EOF→not-found
-			desc := sx(ret.Results[1])
-			switch {
-			case strings.HasSuffix(desc, "ErrSyncByteNotFound"):
-				ok := false
-				if d := last.Idom(); d != nil {
-					if ifi, isIf := d.Instrs[len(d.Instrs)-1].(*ssa.If); isIf && d.Succs[0] == last {
-						cs := sx(ifi.Cond)
-						ok = strings.Contains(cs, "*@EOF") && strings.Contains(cs, "==")
-					}
-				}
-				c.check("C16.scan", anchor, "not-found error only when a read/peek returned io.EOF ["+fmt.Sprint(last.Index)+"]", ok, pd)
-			default:
-				_, isExtract := ret.Results[1].(*ssa.Extract)
-				_, isCall := ret.Results[1].(*ssa.Call)
-				c.check("C16.scan", anchor, "other errors are returned unchanged ["+fmt.Sprint(last.Index)+"]", isExtract || isCall, "returns "+desc)
+			nb := fs.bit(in.nilBit(errV))
+			if !isConst(nb) {
+				return 0, "the outcome of " + e.Note + " is not fixed by the case"
+			}
+			if nb.c {
+				net += d
 			}
 		}
+		return net, ""
 	}
-	c.floorCheck("C16.scan back-edge paths", nBack, 2)
-	c.floorCheck("C16.scan success returns", nSucc, 1)
-	// every `err == io.EOF` true edge returns the not-found error
-	for _, b := range fn.Blocks {
-		ifi, ok := b.Instrs[len(b.Instrs)-1].(*ssa.If)
-		if !ok {
-			continue
+	type cse struct {
+		name  string
+		facts []Bit
+	}
+	with := func(cs cse) *factSet {
+		fs := newFactSet(nil)
+		for _, f := range cs.facts {
+			fs.assume(f)
 		}
-		cs := sx(ifi.Cond)
-		if strings.Contains(cs, "*@EOF") && strings.Contains(cs, "==") {
-			t := b.Succs[0]
-			ret, isRet := t.Instrs[len(t.Instrs)-1].(*ssa.Return)
-			ok := isRet && len(ret.Results) == 2 && strings.HasSuffix(sx(ret.Results[1]), "ErrSyncByteNotFound")
-			c.check("C16.scan", anchor, fmt.Sprintf("io.EOF maps to the sync-not-found error [%d]", b.Index), ok, "EOF branch does not return ErrSyncByteNotFound")
+		return fs
+	}
+	// iterations that go on
+	for _, cs := range []cse{
+		{"the byte read is not 0x47", []Bit{n1, bnot(isSync)}},
+		{"0x47 that IsSynced refuses (false sync byte)", []Bit{n1, isSync, n2, bnot(ok), n3, n4}},
+	} {
+		fs := with(cs)
+		cont := fs.bit(ls.Cond)
+		net, why := consumed(fs, nil)
+		next, _ := fs.val(ls.Next[offPhi]).(*BV)
+		want := bvAdd(off, constInt(int64(net), 64, true), false)
+		good := why == "" && isConst(cont) && cont.c && next != nil && sameBV(next, want) && net >= 1
+		d := why
+		if d == "" {
+			d = fmt.Sprintf("continues under %s, consumes %d byte(s), next offset %s", cont, net, showVal(fs.val(ls.Next[offPhi])))
+		}
+		c.check(rule, anchor, cs.name+": the search goes on, the offset grows by the bytes consumed, at least one", good, d)
+		if cs.name == "the byte read is not 0x47" {
+			sc := fs.bit(syncs[0].Cond)
+			c.check(rule, anchor, cs.name+": the position is not offered to IsSynced", isConst(sc) && !sc.c, "IsSynced called under "+sc.String())
 		}
 	}
+	// success
+	{
+		cs := cse{"0x47 that IsSynced accepts", []Bit{n1, isSync, n2, ok, n3}}
+		fs := with(cs)
+		cont := fs.bit(ls.Cond)
+		netAtTest, why1 := consumed(fs, syncs[0])
+		net, why2 := consumed(fs, nil)
+		r0, _ := fs.val(ls.Sum.RetN(0)).(*BV)
+		_, nilErr := fs.val(ls.Sum.RetN(1)).(NilV)
+		d := why1 + why2
+		good := d == "" && isConst(cont) && !cont.c && nilErr && r0 != nil &&
+			sameBV(r0, bvAdd(off, constInt(int64(net), 64, true), false)) && netAtTest == net && net == 0
+		if d == "" {
+			d = fmt.Sprintf("continues under %s; result (%s, %s); %d byte(s) consumed when IsSynced looks, %d at the return", cont, showVal(fs.val(ls.Sum.RetN(0))), showVal(fs.val(ls.Sum.RetN(1))), netAtTest, net)
+		}
+		c.check(rule, anchor, cs.name+": returned without error, the offset is the number of bytes skipped and the reader stands on that byte (nothing consumed since the iteration began, IsSynced looked at this position)", good, d)
+	}
+	// end of stream
+	for _, cs := range []cse{
+		{"the stream ends", []Bit{bnot(n1), eof(e1)}},
+		{"the stream ends inside the header IsSynced looks at", []Bit{n1, isSync, n2, bnot(ok), bnot(n3), eof(e3)}},
+	} {
+		fs := with(cs)
+		cont := fs.bit(ls.Cond)
+		got := fs.val(ls.Sum.RetN(1))
+		c.check(rule, anchor, cs.name+": the sync-not-found error", isConst(cont) && !cont.c && showVal(got) == "gots.ErrSyncByteNotFound", fmt.Sprintf("continues under %s; result error %s", cont, showVal(got)))
+	}
+	// the search starts at offset 0
+	init, _ := ls.Init[offPhi].(*BV)
+	k, isK := int64(-1), false
+	if init != nil {
+		k, isK = init.ConstInt()
+	}
+	c.check(rule, anchor, "the offset starts at 0", isK && k == 0, "initial offset "+showVal(ls.Init[offPhi]))
 }
-
-func callSeq(desc string) string { return strings.TrimSpace(desc) }
